@@ -100,7 +100,7 @@ var filePool = []string{"x.go", "y.go", "go.mod", "go.mod", "GO.MOD", "Go.Mod", 
 // The "mild" pools only contain names that are valid and do not collide with each other under
 // case folding, so that lists built from them usually pass the check while still exercising
 // the omission rules (vendor variants, nested modules, VCS files, irregular modes).
-var mildDirPool = []string{"", "", "", "a/", "a/b/", "a/b/c/", "vendor/", "vendor/x/", "vendor/x/y/", "pkg/vendor/", "pkg/vendor/z/", "pkg/vendor/z/w/", "vendor/vendor/", "sub/", "sub/deep/", "sub/vendor/", "sub/vendor/q/", "internal/", "cmd/tool/", "é/", "testdata/", ".git/"}
+var mildDirPool = []string{"", "", "", "a/", "a/b/", "a/b/c/", "vendor/", "vendor/x/", "vendor/x/y/", "pkg/vendor/", "pkg/vendor/z/", "pkg/vendor/z/w/", "vendor/vendor/", "sub/", "sub/deep/", "sub/vendor/", "sub/vendor/q/", "internal/", "cmd/tool/", "é/", "testdata/", ".git/", "cmd/generate/", "cmd/gen/", "docs/", "doc/", "doc/s/", "internal/xy/", "internal/x/"}
 var mildFilePool = []string{"x.go", "y.go", "go.mod", "LICENSE", "README.md", "modules.txt", "vendor.go", "vendor", ".hg_archival.txt", "é.go", "a b.txt", ".hidden", "weird[1].go", "z", "go.mod.bak", "main_test.go"}
 
 var uncleanPool = []string{"a//b.go", "./x.go", "a/../b.go", "a/", "/abs/x.go", "", ".", "a/./b", "../up.go", "//", "a/b/..", "/"}
